@@ -227,24 +227,30 @@ Section Shape.
       eapply ext_eq; [exact (ext_trans _ _ _ _ _ _ _ H1 H2)|reflexivity|reflexivity].
   Qed.
 
+  Lemma ext_local_adds es : forall nls lastcall st,
+    t_frames st <> [] ->
+    ext (t_frames st) (t_frames (local_adds es nls lastcall st)) (rev (local_vars es nls lastcall)) [].
+  Proof.
+    induction es as [|e r IH]; intros nls lastcall st Hne; cbn [local_adds local_vars].
+    - apply (ext_fold_add (fun nl => mkV (fst nl) (snd nl) lastcall match lastcall with RNone => true | _ => false end)).
+      exact Hne.
+    - destruct nls as [|[n nl] nls']; [apply ext_refl; exact Hne|].
+      pose proof (ext_add_var (mkV n nl (ref_of_exp e) (refer_empty n e)) _ Hne) as H1.
+      pose proof (IH nls' (match e with ECall _ _ _ _ => ref_of_exp e | _ => RNone end) _ (ext_nonempty _ _ _ _ H1)) as H2.
+      eapply ext_eq; [exact (ext_trans _ _ _ _ _ _ _ H1 H2)| |reflexivity].
+      cbn [rev]. reflexivity.
+  Qed.
+
   Lemma ext_local_loop flv es : Forall Pe es -> forall nls lastcall st,
     incl (flat_map asg_exp es) A -> (length es <= length nls)%nat -> t_frames st <> [] ->
     ext (t_frames st) (t_frames (local_loop (map (fun e => (e, tr_exp flv e)) es) nls lastcall st))
         (rev (local_vars es nls lastcall)) (flat_map sk_exp es).
   Proof.
-    intros Hall. induction Hall as [|e r He Hr IH]; intros nls lastcall st HA Hlen Hne; cbn [map local_loop local_vars flat_map].
-    - apply (ext_fold_add (fun nl => mkV (fst nl) (snd nl) lastcall match lastcall with RNone => true | _ => false end)).
-      exact Hne.
-    - destruct nls as [|[n nl] nls']; [cbn in Hlen; lia|].
-      cbn in HA. pose proof (He flv st (incl_app_l _ _ _ HA) Hne) as H1.
-      pose proof (ext_add_var (mkV n nl (ref_of_exp e) (refer_empty n e)) _ (ext_nonempty _ _ _ _ H1)) as H2.
-      pose proof (ext_trans _ _ _ _ _ _ _ H1 H2) as H12.
-      assert (Hlen' : (length r <= length nls')%nat) by (cbn in Hlen; lia).
-      pose proof (IH nls' (match e with ECall _ _ _ _ => ref_of_exp e | _ => RNone end) _
-                     (incl_app_r _ _ _ HA) Hlen' (ext_nonempty _ _ _ _ H12)) as H3.
-      eapply ext_eq; [exact (ext_trans _ _ _ _ _ _ _ H12 H3)| |].
-      + cbn [rev]. rewrite app_nil_r. reflexivity.
-      + rewrite app_nil_r. reflexivity.
+    intros Hall nls lastcall st HA Hlen Hne. unfold local_loop.
+    rewrite firstn_all2 by (rewrite map_length; lia). rewrite !map_map. cbn [fst snd]. rewrite map_id.
+    pose proof (ext_apply_exps flv es Hall st HA Hne) as H1.
+    pose proof (ext_local_adds es nls lastcall _ (ext_nonempty _ _ _ _ H1)) as H2.
+    eapply ext_eq; [exact (ext_trans _ _ _ _ _ _ _ H1 H2)|apply app_nil_r|apply app_nil_r].
   Qed.
 
   Definition tgt_of (flv : Z) (v : exp) : atarget :=
